@@ -344,6 +344,9 @@ for _k, _v in MORE_TIE.items():
 
 # statements added after an independent audit of the Props modules (vacuous / trivial ones replaced)
 MORE_THM = {
+ "C02": " A WRITER HELD OPEN across other operations (C02x): from any healthy state in which its temp file is untouched the commit does "
+        "exactly what it would have done straight away on the state it finds (held_commit_refines); every operation sequence "
+        "without clear leaves a held temp file alone (ops_preserve_tmp); composed: held_across_ops.",
  "C01": " FROM OPEN ON: whatever open / open_hash answered ok, any sequence of reads hands out a prefix of the content file as it "
         "was at open and check() is ok only if the bytes pass the check of the requested address / found entry "
         "(read_stream_sound_from_open, _from_openHash); a keyed read that is ok under any fault plan met no fault and returns "
